@@ -9,6 +9,12 @@ open List
 
 def leZ (x y : Int) : Bool := decide (x ≤ y)
 
+theorem leZ_total : TotalOrderB leZ where
+  refl a := by simp [leZ]
+  trans a b c := by simp only [leZ, decide_eq_true_eq]; omega
+  total a b := by simp only [leZ, Bool.or_eq_true, decide_eq_true_eq]; omega
+  antisymm a b := by simp only [leZ, decide_eq_true_eq]; omega
+
 /-- relabel every face of every die -/
 def relabelDice (f : Int → Int) (dice : List (Hist Int)) : List (Hist Int) :=
   dice.map fun h => h.map fun oc => (f oc.1, oc.2)
@@ -87,6 +93,96 @@ theorem spec_affine (a b : Int) (ha : 0 < a) (dice : List (Hist Int)) (idxs : Li
   · have : ¬ (a * selSum leZ 0 (· + ·) idxs tw.1 + b * idxs.length = a * z + b * idxs.length) := by
       intro heq
       have h1 : a * selSum leZ 0 (· + ·) idxs tw.1 = a * z := by linarith
+      exact h (Int.eq_of_mul_eq_mul_left (by omega) h1)
+    simp [h, this]
+
+end Dyce
+
+/-! ### the decreasing case: `a < 0` mirrors the sorted positions -/
+namespace Dyce
+open List
+
+/-- relabel every face by a decreasing map; the faces of each die are listed ascending again -/
+def relabelDiceRev (f : Int → Int) (dice : List (Hist Int)) : List (Hist Int) :=
+  dice.map fun h => (h.map fun oc => (f oc.1, oc.2)).reverse
+
+/-- position `j` from the low end ↦ position `j` from the high end -/
+def mirror (n : Nat) (idxs : List Nat) : List Nat := idxs.map fun j => n - 1 - j
+
+theorem wsum_poolTuples_forall₂_perm {d₁ d₂ : List (Hist Int)} (h : List.Forall₂ (· ~ ·) d₁ d₂)
+    (F : List Int → Nat) : wsum (poolTuples d₁) F = wsum (poolTuples d₂) F := by
+  induction h generalizing F with
+  | nil => rfl
+  | cons hp _ ih =>
+    rw [wsum_poolTuples_cons, wsum_poolTuples_cons, wsum_perm hp]
+    apply wsum_congr
+    intro x _
+    exact ih _
+
+theorem relabelDiceRev_forall₂ (f : Int → Int) (dice : List (Hist Int)) :
+    List.Forall₂ (· ~ ·) (relabelDiceRev f dice) (relabelDice f dice) := by
+  induction dice with
+  | nil => exact List.Forall₂.nil
+  | cons h ds ih => exact List.Forall₂.cons (List.reverse_perm _) ih
+
+theorem sortBy_map_affine_neg (a b : Int) (ha : a < 0) (t : List Int) :
+    sortBy leZ (t.map fun x => a * x + b) = (sortBy leZ t).reverse.map fun x => a * x + b := by
+  rw [← sortBy_flip leZ_total t]
+  unfold sortBy
+  symm
+  apply List.map_mergeSort
+  intro x _ y _
+  simp only [leZ, decide_eq_decide]
+  constructor
+  · intro h; nlinarith
+  · intro h; nlinarith
+
+theorem selSum_affine_neg (a b : Int) (ha : a < 0) (t : List Int) (idxs : List Nat)
+    (hlt : ∀ j ∈ idxs, j < t.length) :
+    selSum leZ 0 (· + ·) idxs (t.map fun x => a * x + b)
+      = a * selSum leZ 0 (· + ·) (mirror t.length idxs) t + b * idxs.length := by
+  unfold selSum
+  rw [sortBy_map_affine_neg a b ha, sumRoll_eq_sum_getD, sumRoll_eq_sum_getD]
+  have hl : (sortBy leZ t).length = t.length := (sortBy_perm leZ t).length_eq
+  rw [sum_getD_takeIdxs _ idxs (by intro j hj; rw [List.length_map, List.length_reverse, hl]; exact hlt j hj),
+    sum_getD_takeIdxs _ (mirror t.length idxs) (by
+      intro j hj
+      obtain ⟨j', hj', rfl⟩ := List.mem_map.mp hj
+      have := hlt j' hj'
+      rw [hl]; omega)]
+  induction idxs with
+  | nil => simp [mirror]
+  | cons j js ih =>
+    have hj : j < (sortBy leZ t).length := by rw [hl]; exact hlt j (by simp)
+    have ih' := ih (fun j' hj' => hlt j' (by simp [hj']))
+    simp only [mirror, List.map_cons, List.sum_cons, List.length_cons] at ih' ⊢
+    rw [ih']
+    rw [List.getElem?_map, List.getElem?_reverse hj, hl]
+    have hj2 : t.length - 1 - j < (sortBy leZ t).length := by rw [hl] at hj ⊢; omega
+    rw [List.getElem?_eq_getElem hj2]
+    simp only [Option.map_some, Option.getD_some]
+    push_cast
+    ring
+
+/-- **C03, decreasing affine relabelling**: rolls of the relabelled pool whose selected sum is
+`a·z + b·m` ↔ rolls of the original pool whose sum over the mirrored positions is `z` -/
+theorem spec_affine_neg (a b : Int) (ha : a < 0) (dice : List (Hist Int)) (idxs : List Nat)
+    (hlt : ∀ j ∈ idxs, j < dice.length) (z : Int) :
+    wsum (poolTuples (relabelDiceRev (fun x => a * x + b) dice))
+        (fun t => if selSum leZ 0 (· + ·) idxs t = a * z + b * idxs.length then 1 else 0)
+      = wsum (poolTuples dice)
+        (fun t => if selSum leZ 0 (· + ·) (mirror dice.length idxs) t = z then 1 else 0) := by
+  rw [wsum_poolTuples_forall₂_perm (relabelDiceRev_forall₂ _ dice), poolTuples_relabel, wsum_map_fst]
+  apply wsum_congr'
+  intro tw htw
+  have hlen : tw.1.length = dice.length := mem_poolTuples_length htw
+  rw [selSum_affine_neg a b ha tw.1 idxs (by intro j hj; rw [hlen]; exact hlt j hj), hlen]
+  by_cases h : selSum leZ 0 (· + ·) (mirror dice.length idxs) tw.1 = z
+  · simp [h]
+  · have : ¬ (a * selSum leZ 0 (· + ·) (mirror dice.length idxs) tw.1 + b * idxs.length
+        = a * z + b * idxs.length) := by
+      intro heq
+      have h1 : a * selSum leZ 0 (· + ·) (mirror dice.length idxs) tw.1 = a * z := by linarith
       exact h (Int.eq_of_mul_eq_mul_left (by omega) h1)
     simp [h, this]
 
